@@ -132,6 +132,45 @@ def alg_cells(aname, tier):
 
     cells.append(Cell("%s/rel" % aname, alg, check_rel, nt, classify, quick=180, thorough=3000))
 
+    # ---- the same Jacobians called directly on numeric (DM) parameters: structurally zero blocks, tiny entries,
+    #      sequences of nearly identical arguments
+    @st.composite
+    def num_case(draw):
+        return {"x": draw(alg["mixed"]), "zero": [draw(st.booleans()) and draw(st.booleans()) for _ in gi.alg_layout],
+                "tiny": draw(st.sampled_from([None, None, 3e-7, 8e-7, 1.5e-6, 1e-9])), "tiny_at": draw(st.integers(0, gi.na - 1)),
+                "pert": [draw(st.sampled_from([0.0, 1e-9, -1e-7, 1e-6])) for _ in range(draw(st.integers(1, 2)))]}
+
+    def num_x(case):
+        x = enc(case["x"]).astype(float)
+        o = 0
+        for z, sl in zip(case["zero"], gi.alg_layout):
+            w = sl[1] if sl[0] == "vec" else 3 if sl[0] == "rotvec" else 1
+            if z:
+                x[o:o + w] = 0.0
+            o += w
+        if case["tiny"] is not None:
+            x[case["tiny_at"]] = case["tiny"]
+        return x
+
+    def check_numeric(case):
+        x0 = num_x(case)
+        keys = ["Jl", "Jr", "Jl_inv", "Jr_inv"] + (["Ql", "Qr"] if aname == "se3" else [])
+        for eps in [0.0] + list(case["pert"]):
+            x = x0 * (1 + eps)
+            for key in keys:
+                try:
+                    want = gi.fn(key)(x)
+                except Exception as e:
+                    if type(e).__name__ == "NotOffered":
+                        continue
+                    raise
+                got = gi.numeric(key, x)
+                L.close(got, want, "%s: %s called on numeric parameters vs the symbolic function" % (aname, key), atol=1e-12, rtol=1e-12,
+                        scale=float(np.max(np.abs(want))), x=x.tolist())
+
+    cells.append(Cell("%s/numeric_mode" % aname, num_case(), check_numeric, lambda c: nt(c["x"]),
+                      lambda c: ["zero-block" if any(c["zero"]) else "no-zero-block", "tiny" if c["tiny"] else "no-tiny"], quick=60, thorough=800))
+
     if aname == "se3":
         def check_Q(case):
             x = enc(case)
